@@ -1,7 +1,9 @@
 ---------------------------- MODULE ShedderTrace ----------------------------
 (* Trace validation for C02: the events recorded from the real adaptive shedder
-   (core/load; in the thorough tier also through rest/handler SheddingHandler and the
-   zRPC UnarySheddingInterceptor) must be a behaviour of Shedder.tla.
+   (core/load) must be a behaviour of Shedder.tla.  (Traces recorded while requests travel
+   through rest/handler SheddingHandler and the zRPC UnarySheddingInterceptor are validated
+   by ShedderWrapTrace.tla against the request-level law ShedderWrap.tla; the hend event
+   below is the older, promise-level form of its hend and is kept for recorded replays.)
 
    Logged events (harness order = one total order; times in ms; fly / avg are white-box
    readings of adaptiveShedder.flying and avgFlying x S taken after the call, -1 if the
